@@ -124,7 +124,7 @@ def tla_desc_to_py(d: dict) -> dict:
                       "defaults": {p: v for p, v in f["defaults"]}, "bound": {p: v for p, v in f["bound"]},
                       "mapspec": ms_string(f["ms"]) if f["has_ms"] else None,
                       "internal_shape": list(f.get("internal", [])), "cache": bool(f.get("cache", False)),
-                      "retnone": bool(f.get("retnone", False)), "rescpus": f.get("rescpus") or "", "impl": f.get("impl") or "", "picker": bool(f.get("picker", False))})
+                      "retnone": bool(f.get("retnone", False)), "rescpus": f.get("rescpus") or "", "impl": f.get("impl") or "", "picker": bool(f.get("picker", False)), "elemscope": bool(f.get("elemscope", False))})
     return {"funcs": funcs}
 
 
@@ -185,19 +185,29 @@ def _later_than_failed(desc: dict, fd: dict, fails: list[dict]) -> bool:
 def do_map(pipeline, desc: dict, inputs_py: dict, *, run_folder: str | None, storage="dict", parallel=False,
            cleanup=True, fixed_indices=None, fixed_resolved: list | None = None, fixed_raw: list | None = None,
            F: list[str] | None = None,
-           executor=None, output_names=None, internal_shapes=None, load=True, settle=None, **extra) -> tuple[list[dict], Any]:
-    """One map run -> (events, results or exception)."""
+           executor=None, output_names=None, internal_shapes=None, load=True, settle=None, use_async=False,
+           **extra) -> tuple[list[dict], Any]:
+    """One map run -> (events, results or exception).  use_async: through Pipeline.map_async (awaited to the end)."""
     fnames = F if F is not None else [fd["name"] for fd in desc["funcs"]]
     events = [ev(e="begin", F=fnames, cleanup=cleanup, fixed=fixed_resolved or [], fixedraw=fixed_raw or [],
                  cache=pipeline.cache is not None)]
     start = len(build.read_log())     # the cross-process log file when one is set, the in-process list otherwise
     buf = io.StringIO()
+    import asyncio
     try:
         with contextlib.redirect_stdout(buf):
-            res = pipeline.map(inputs_py, run_folder=run_folder, storage=storage, parallel=parallel, cleanup=cleanup,
-                               fixed_indices=fixed_indices, executor=executor, output_names=output_names,
-                               internal_shapes=internal_shapes, **extra)
-    except Exception as ex:  # noqa: BLE001
+            if use_async:
+                async def go():
+                    am = pipeline.map_async(inputs_py, run_folder=run_folder, storage=storage, cleanup=cleanup,
+                                            fixed_indices=fixed_indices, executor=executor, output_names=output_names,
+                                            internal_shapes=internal_shapes, **extra)
+                    return await am.task
+                res = asyncio.run(go())
+            else:
+                res = pipeline.map(inputs_py, run_folder=run_folder, storage=storage, parallel=parallel, cleanup=cleanup,
+                                   fixed_indices=fixed_indices, executor=executor, output_names=output_names,
+                                   internal_shapes=internal_shapes, **extra)
+    except (Exception, asyncio.CancelledError) as ex:  # noqa: BLE001
         if settle is not None:
             settle()
         evs = log_events(start)
